@@ -335,7 +335,7 @@ func headStr(s string, n int) string {
 
 func c17Hostile(c *core.Ctx) {
 	names := ModelNames()
-	classes := []string{"random-bytes", "truncated", "wrong-types", "unknown-model", "empty-name", "no-inputs", "unequal-inputs", "empty-object", "extra-keys", "deep-nesting", "zero-length-inputs", "duplicate-keys"}
+	classes := []string{"random-bytes", "truncated", "wrong-types", "unknown-model", "empty-name", "no-inputs", "unequal-inputs", "empty-object", "extra-keys", "deep-nesting", "zero-length-inputs", "duplicate-keys", "setup-panic"}
 	class := classes[c.Idx%len(classes)]
 	model := names[c.R.Intn(len(names))]
 	for tableModel(model) {
@@ -417,6 +417,16 @@ func c17Hostile(c *core.Ctx) {
 	case "duplicate-keys":
 		body = []byte(strings.Replace(string(vb), `{"Name"`, `{"Name":"`+model+`","Name"`, 1))
 		needProblem = false
+	case "setup-panic":
+		// a parameter value that makes the set-up phase (state initialisation on the calling goroutine) panic:
+		// the runner must answer with a document describing the problem
+		if c.R.Bool(0.5) {
+			body = []byte(fmt.Sprintf(`{"Name":"Lag","Parameters":[{"Name":"timeLag","Value":%v}],"Inputs":[{"Name":"inflow","Values":[1,2,3]}]}`, []float64{-1, -3, 1e18}[c.R.Intn(3)]))
+			model = "Lag"
+		} else {
+			body = []byte(fmt.Sprintf(`{"Name":"GR4J","Parameters":[{"Name":"X1","Value":100},{"Name":"X2","Value":0},{"Name":"X3","Value":50},{"Name":"X4","Value":%v}],"Inputs":[{"Name":"rainfall","Values":[1,2]},{"Name":"pet","Values":[1,1]}]}`, []float64{-2, -0.5, -40}[c.R.Intn(3)]))
+			model = "GR4J"
+		}
 	case "deep-nesting":
 		body = []byte(strings.Repeat("[", c.R.IntRange(10, 2000)) + strings.Repeat("]", c.R.IntRange(0, 2000)))
 	}
